@@ -19,7 +19,7 @@ ASSUMPTIONS = [
     "identity (is) is demanded only when every prefix in the tree shares one base; mixed SI/IEC trees are compared "
     "numerically (1e-9 relative) as the statement says",
 ]
-SHARDS = {"quick": 2, "thorough": 14}
+SHARDS = {"quick": 4, "thorough": 14}
 
 
 def skeleton(t):
@@ -100,7 +100,7 @@ def run(ctx):
         mdl.fresh.append(u)
     gen = Gen(env, rng, len(mdl.fresh))
     first = {}   # normal form key -> first real object
-    n = ctx.scale(20000, 1_000_000)
+    n = ctx.scale(60000, 1_500_000)
 
     def check_value(t, real, nf, what):
         ctx.count("identity_comparisons")
